@@ -67,7 +67,7 @@ pub struct TextFault {
     pub text: String,
 }
 
-pub const TEXT_KINDS: &[&str] = &["T-TRUNC", "T-DELCH", "T-INSCH", "T-DELTOK", "T-DUPTOK", "T-SWAPTOK", "T-INSTOK", "T-NUM", "T-REPTOK", "T-REFNAME", "T-FROMNAME", "T-PROSE"];
+pub const TEXT_KINDS: &[&str] = &["T-TRUNC", "T-DELCH", "T-INSCH", "T-DELTOK", "T-DUPTOK", "T-SWAPTOK", "T-INSTOK", "T-NUM", "T-REPTOK", "T-REFNAME", "T-FROMNAME", "T-PROSE", "T-SPLITTOK"];
 
 fn char_boundary_at(text: &str, mut i: usize) -> usize {
     i = i.min(text.len());
@@ -147,6 +147,24 @@ pub fn apply_text_fault(kind: &'static str, text: &mut String, l: &mut Lane<'_>)
             let t = VOCAB[l.draw(VOCAB.len() as u64) as usize];
             text.insert_str(at, &format!("{t} "));
             Some(TextFault { kind, text: format!("insert token {:?} at {at}", t) })
+        }
+        "T-SPLITTOK" => {
+            // white space typed INSIDE a token: a literal wrapped by an editor ('1000 0000'B, a long string), an
+            // identifier or number broken in two
+            let cand: Vec<(usize, usize)> = sp.iter().copied().filter(|(s, e)| e - s >= 2).collect();
+            if cand.is_empty() {
+                return None;
+            }
+            let (s, e) = cand[l.draw(cand.len() as u64) as usize];
+            let k = char_boundary_at(text, s + 1 + l.draw((e - s - 1) as u64) as usize);
+            if k <= s || k >= e {
+                return None;
+            }
+            const WS: &[&str] = &[" ", "\n", "\t", "\r\n", "  ", "\n    "];
+            let w = WS[l.draw(WS.len() as u64) as usize];
+            let tok = text[s..e].to_string();
+            text.insert_str(k, w);
+            Some(TextFault { kind, text: format!("white space {:?} inside token {:?} at {k}", w, tok) })
         }
         "T-PROSE" => {
             // pasted prose / a comment that lost its `--`: ONE long token (no ASCII white space) with
